@@ -471,8 +471,11 @@ func TestPropTagExpr(t *testing.T) {
 		defer f.close()
 
 		var live []ser
-		insert := func(ps []placed) {
-			var per [2][]ser
+		// resend: series that already exist in the index and come again in the same batch, as in
+		// every write to known series (Shard.validateSeriesAndFields hands all series of a write to
+		// CreateSeriesListIfNotExists, old and new).
+		insert := func(ps, resend []placed) {
+			var per, old [2][]ser
 			for _, p := range ps {
 				if p.Where == 0 || p.Where == 2 {
 					per[0] = append(per[0], p.S)
@@ -482,7 +485,24 @@ func TestPropTagExpr(t *testing.T) {
 				}
 				live = append(live, p.S)
 			}
+			for _, p := range resend {
+				if p.Where == 0 || p.Where == 2 {
+					old[0] = append(old[0], p.S)
+				}
+				if p.Where == 1 || p.Where == 2 {
+					old[1] = append(old[1], p.S)
+				}
+			}
 			for i := 0; i < nIdx; i++ {
+				if len(old[i]) > 0 {
+					per[i] = append(append([]ser{}, old[i]...), per[i]...)
+					if len(per[i]) > len(old[i]) {
+						rec.Class("batch:existing-and-new-series-together")
+					}
+					if rapid.Bool().Draw(t, "shuffleBatch") {
+						per[i] = rapid.Permutation(per[i]).Draw(t, "batchOrder")
+					}
+				}
 				if err := f.add(i, per[i]); err != nil {
 					t.Fatalf("create series: %v", err)
 				}
@@ -642,7 +662,7 @@ func TestPropTagExpr(t *testing.T) {
 			}
 		}
 
-		insert(first)
+		insert(first, nil)
 		runQueries("log", rapid.IntRange(4, 9).Draw(t, "k-log"))
 		if compact {
 			ok, err := f.reopen(1, true)
@@ -663,7 +683,13 @@ func TestPropTagExpr(t *testing.T) {
 			runQueries("compacted-reopened", rapid.IntRange(2, 5).Draw(t, "k-warm"))
 		}
 		if len(second) > 0 {
-			insert(second)
+			var resend []placed
+			for _, p := range first {
+				if rapid.IntRange(0, 9).Draw(t, "resend") < 4 {
+					resend = append(resend, p)
+				}
+			}
+			insert(second, resend)
 			st := "log+second-batch"
 			if compact {
 				st = "compacted+log"
